@@ -932,12 +932,37 @@ def lookup_module_known(arg: ast.AST, fn: ast.FunctionDef, tree: ast.Module, dep
     or a parameter that every call of the function in the file binds to such an expression"""
     if depth > 4:
         return False
-    if isinstance(arg, ast.Constant) and isinstance(arg.value, str):
-        return arg.value in KNOWN_LOOKUP_MODULES or arg.value.startswith("direct.nn.")
-    if isinstance(arg, ast.JoinedStr) and arg.values and isinstance(arg.values[0], ast.Constant):
-        return str(arg.values[0].value).startswith("direct.nn.")
-    if isinstance(arg, ast.BinOp) and isinstance(arg.op, ast.Add):
-        return lookup_module_known(arg.left, fn, tree, depth + 1)
+    from .c20 import module_string_constants
+
+    consts = module_string_constants(tree)
+
+    def static_prefix(e) -> str:
+        """the constant text an expression is known to start with"""
+        if isinstance(e, ast.Constant) and isinstance(e.value, str):
+            return e.value
+        if isinstance(e, ast.Name) and e.id in consts and not any(
+                isinstance(n, ast.Name) and n.id == e.id and isinstance(n.ctx, ast.Store) for n in ast.walk(fn)):
+            return consts[e.id]
+        if isinstance(e, ast.JoinedStr):
+            out = ""
+            for v in e.values:
+                if isinstance(v, ast.Constant):
+                    out += str(v.value)
+                elif isinstance(v, ast.FormattedValue) and v.conversion == -1 and v.format_spec is None \
+                        and isinstance(v.value, ast.Name) and v.value.id in consts:
+                    out += consts[v.value.id]
+                else:
+                    break
+            return out
+        if isinstance(e, ast.BinOp) and isinstance(e.op, ast.Add):
+            return static_prefix(e.left)
+        return ""
+
+    if isinstance(arg, ast.Constant) or (isinstance(arg, ast.Name) and static_prefix(arg)):
+        text = static_prefix(arg)
+        return text in KNOWN_LOOKUP_MODULES or text.startswith("direct.nn.")
+    if isinstance(arg, (ast.JoinedStr, ast.BinOp)):
+        return static_prefix(arg).startswith("direct.nn.")
     if isinstance(arg, ast.Name):
         assigns = [n.value for n in ast.walk(fn) if isinstance(n, ast.Assign) and len(n.targets) == 1
                    and isinstance(n.targets[0], ast.Name) and n.targets[0].id == arg.id]
